@@ -1,13 +1,15 @@
 ---------------------------- MODULE Trace_JetLib ----------------------------
 (* impl -> spec for the jet library: one event per run of a one-jet program on the real Bit Machine
    (name, input bits, output bits or "jetfailed").  Accepted iff the jets JetLib specifies computed exactly
-   JetOut; the others are only required not to panic. *)
+   JetOut, and those it specifies by a relation (inverses, normalisation, the group law up to the Jacobian representative)
+   returned something RelOk accepts; the others are only required not to panic. *)
 EXTENDS JetLib, Json, IOUtils
 Rec == ndJsonDeserialize(IOEnv.TRACE)
 VARIABLE l
 S(x) == ToString(x)
 Ok(e) == /\ S(e.out) # S("panic")
          /\ JetKnown(e.name) => S(e.out) = (IF S(JetOut(e.name, e.in)) = S(JetFails) THEN S("jetfailed") ELSE S(JetOut(e.name, e.in)))
+         /\ JetKnownRel(e.name) => RelOk(e.name, e.in, IF S(e.out) = S("jetfailed") THEN JetFails ELSE e.out)
 Init == l = 1
 Next == l <= Len(Rec) /\ (Ok(Rec[l]) = TRUE) /\ l' = l + 1
 Spec == Init /\ [][Next]_l
